@@ -44,10 +44,9 @@ class LabelToInfo(MutableMapping[int, Optional[Info]]):
         self.empty_list = empty_list
 
     def __getitem__(self, label: int) -> Optional[Info]:
-        try:
-            return Info(self.comb_class_list[label], label, self.empty_list[label])
-        except KeyError:
+        if not 0 <= label < len(self.comb_class_list):
             return None
+        return Info(self.comb_class_list[label], label, self.empty_list[label])
 
     def __setitem__(self, key: int, value: Optional[Info]) -> None:
         raise NotImplementedError
